@@ -28,6 +28,8 @@ import (
 type denStep struct {
 	Kind string `json:"kind"` // plain | ecs | cd | ecscd
 	Born string `json:"born"` // msg | wire
+	DO   bool   `json:"do"`
+	AD   bool   `json:"ad"`
 	Out  string `json:"out"`  // model: down | synth
 	Cut  bool   `json:"cut"`  // model: shared cut exists BEFORE the step
 }
@@ -38,6 +40,8 @@ type denBehaviour struct {
 
 type denInput struct {
 	Behaviours []denBehaviour `json:"behaviours"`
+	// Focus "c06": only the AD discipline of the replies is judged (C06); "" (C19): the denial-bypass clauses
+	Focus string `json:"focus"`
 }
 
 func denProof(qname string) *dns.Msg {
@@ -96,7 +100,8 @@ func TestEcsDenialBypass(t *testing.T) {
 				q := new(dns.Msg)
 				q.SetQuestion(fmt.Sprintf("x%d-%d.gone.zc.", bi, si), dns.TypeA)
 				q.RecursionDesired = true
-				q.SetEdns0(1232, true)
+				q.SetEdns0(1232, st.DO)
+				q.AuthenticatedData = st.AD
 				if st.Kind == "ecs" || st.Kind == "ecscd" {
 					o := q.IsEdns0()
 					o.Option = append(o.Option, &dns.EDNS0_SUBNET{Code: dns.EDNS0SUBNET, Family: 1, SourceNetmask: 24,
@@ -119,6 +124,7 @@ func TestEcsDenialBypass(t *testing.T) {
 						continue
 					}
 					ch.ResetWire(w, req)
+					ch.AllowDirectPack() // the owned transports are raw byte sinks: the cache may answer from bytes
 				} else {
 					ch.Reset(w, q)
 				}
@@ -129,6 +135,10 @@ func TestEcsDenialBypass(t *testing.T) {
 				res.Case(fmt.Sprintf("den:%s:%v", policy, hist))
 				res.Count("steps", 1)
 				violate := func(clause, what string) {
+					if (in.Focus == "c06") != (clause == "ad") {
+						res.DriftNote("%s (judged by another check): %s", clause, what)
+						return
+					}
 					res.Violate("c19/denial/"+clause+"/"+policy+"/"+st.Kind+"/"+st.Born,
 						fmt.Sprintf("[ecs forwarding %s] %v: %s", policy, hist, what),
 						map[string]any{"driver": "ecs-denial", "policy": policy, "steps": b.Steps[:si+1], "history": hist})
@@ -136,6 +146,10 @@ func TestEcsDenialBypass(t *testing.T) {
 				if !w.Written() {
 					res.DriftNote("no reply for %s/%s", st.Kind, st.Born)
 					continue
+				}
+				if rm := w.Msg(); rm != nil && rm.AuthenticatedData && (q.CheckingDisabled || (!st.DO && !st.AD)) {
+					violate("ad", fmt.Sprintf("the %s reply carries AD=1 toward a client with CD=%v DO=%v AD=%v",
+						map[bool]string{true: "resolved", false: "synthesised"}[reached], q.CheckingDisabled, st.DO, st.AD))
 				}
 				bypass := st.Kind != "plain"
 				switch {
